@@ -136,6 +136,13 @@ class Cmp(Part):
         cmp_ev("eps", epc, 0, 1)
         cmp_ev("eps", epc, 1, 0)
         cmp_ev("eps", epc, 0, 0)
+        # ONE epsilon comparator object lives through the whole check and meets vectors of every length (the default archive's comparator
+        # does the same across the problems of a process)
+        if not hasattr(type(self), "_shared_eps"):
+            type(self)._shared_eps = [EpsilonDominance([0.1, 0.1]), EpsilonDominance(0.05), EpsilonDominance([1e-3, 1.0, 0.37])]
+        shared = type(self)._shared_eps[case["cseed"] % 3] if "cseed" in case else type(self)._shared_eps[len(vs[0]) % 3]
+        cmp_ev("eps", shared, 0, 1)
+        cmp_ev("eps", shared, 1, 0)
         if len(vs) == 3:
             qr = cmp_ev("pareto", par, 1, 2)
             pr = cmp_ev("pareto", par, 0, 2)
